@@ -207,7 +207,7 @@ def function(fn: ast.FunctionDef, tree: ast.Module, consts: bool = True, aliases
     _PURE_EXTRA.update(n.name for n in tree.body if isinstance(n, ast.ClassDef))
     # 1. module-level literal constants
     env: dict[str, ast.AST] = {}
-    for name, vals in _module_assigns(tree).items():
+    for name, vals in (_module_assigns(tree).items() if consts else ()):
         if consts and len(vals) == 1 and isinstance(vals[0], ast.Constant) and type(vals[0].value) in (int, str, bytes) and name not in bound:
             env[name] = vals[0]
     if env:
@@ -316,3 +316,15 @@ def functions(tree: ast.Module, names: set[str] | None, consts: bool = True, ali
             self.generic_visit(node)
             return node
     return T().visit(tree)
+
+
+_CACHE: dict[tuple, ast.Module] = {}
+
+
+def module(text: str) -> ast.Module:
+    """bsp.py as every C11 translator reads it: struct constants resolved, every function normalised (no constant substitution,
+    only table-entry aliases).  Memoised on the source text; callers must not modify the tree."""
+    key = (hash(text), len(text))
+    if key not in _CACHE:
+        _CACHE[key] = functions(struct_constants(ast.parse(text)), None, consts=False, aliases='table-entries')
+    return _CACHE[key]
